@@ -240,6 +240,9 @@ func runC05(t *testing.T, s c05Scn) (x nExec) {
 func TestC05(t *testing.T) {
 	rep := newReport()
 	defer rep.Write(t)
+	if replayT(t, rep, c02TScenarios()) {
+		return
+	}
 	var rp c05Scn
 	if loadReplay(&rp) {
 		x := runC05(t, rp)
@@ -307,6 +310,8 @@ func TestC05(t *testing.T) {
 			})
 		}
 	}
+	// ---- Engine T part: a false accusation racing UpdateNode must not lose the owner's latest metadata
+	runTSet(t, rep, c02TScenarios(), 2, 11000, func(v string) bool { return v == "latest-metadata-not-published" || v == "update-needed-its-timeout" })
 	rep.Extra["executions"] = execs
 	rep.Extra["precondition_false"] = skipped
 	rep.States = len(digests)
